@@ -9,6 +9,43 @@ open GV GV.Pmmr
 
 variable {α H : Type}
 
+/-! ### the existence guard of `Segment::root` (repair 362e7d94e) -/
+
+theorem root_of_empty (hf : HashFn α H) (s : Segment α H) (size : Nat) (bm : Option (Nat → Bool))
+    (h : s.id.unprunedSize size = 0) : s.root hf size bm = .err .nonExistent := by
+  unfold Segment.root; rw [if_pos h]
+
+theorem root_of_nonempty (hf : HashFn α H) (s : Segment α H) (size : Nat) (bm : Option (Nat → Bool))
+    (h : s.id.unprunedSize size ≠ 0) :
+    s.root hf size bm =
+      rootWith hf s size bm (s.id.positions size) (s.id.full size) (s.id.peaksIn size) := by
+  unfold Segment.root; rw [if_neg h]
+
+/-- a successful `root` passed the guard -/
+theorem root_ok_rootWith (hf : HashFn α H) (s : Segment α H) (size : Nat) (bm : Option (Nat → Bool))
+    (o : Option H) (h : s.root hf size bm = .ok o) :
+    s.id.unprunedSize size ≠ 0 ∧
+      rootWith hf s size bm (s.id.positions size) (s.id.full size) (s.id.peaksIn size) = .ok o := by
+  unfold Segment.root at h
+  split at h
+  · cases h
+  · rename_i hne; exact ⟨hne, h⟩
+
+theorem capacity_pos (id : Ident) : 0 < id.capacity := by
+  unfold Ident.capacity shlW
+  have h1 : 2 ^ (id.height % 64) < 2 ^ 64 := Nat.pow_lt_pow_right (by omega) (Nat.mod_lt _ (by omega))
+  have h2 : 0 < 2 ^ (id.height % 64) := Nat.pow_pos (by omega)
+  rw [Nat.one_mul, Nat.mod_eq_of_lt h1]; exact h2
+
+/-- a full segment exists -/
+theorem unprunedSize_ne_zero_of_full (id : Ident) (size : Nat) (h : id.full size = true) :
+    id.unprunedSize size ≠ 0 := by
+  unfold Ident.full at h
+  have := capacity_pos id
+  simp only [beq_iff_eq] at h
+  omega
+
+
 /-- what collision resistance of the two hash shapes gives (same index on both sides suffices) -/
 structure Inj (hf : HashFn α H) : Prop where
   leaf : ∀ i x y, hf.leaf i x = hf.leaf i y → x = y
@@ -677,7 +714,8 @@ theorem root_inj (hf : HashFn α H) (inj : Inj hf) (s1 s2 : Segment α H) (hid :
     (size : Nat) (bm : Option (Nat → Bool)) (wf : WellFormedRange s1.id size) (o1 o2 : Option H)
     (h1 : s1.root hf size bm = .ok o1) (h2 : s2.root hf size bm = .ok o2) :
     o1.isSome = o2.isSome ∧ (o1 = o2 → segReads hf s1 size bm = segReads hf s2 size bm) := by
-  unfold Segment.root at h1 h2
+  have h1 := (root_ok_rootWith hf s1 size bm o1 h1).2
+  have h2 := (root_ok_rootWith hf s2 size bm o2 h2).2
   unfold segReads
   rw [← hid] at h2 ⊢
   exact rootWith_inj hf inj s1 s2 size bm _ _ _ wf o1 o2 h1 h2
